@@ -614,8 +614,8 @@ def evidence_meta(tier):
                'Layer P (plan assembly): abstract programs = DAGs of 2-9 grounded tables, 0-2 external data tables, an optional '
                'two-member iteration, 1-4 requested predicates (a requested predicate may be an intermediate of another); for each '
                'requested predicate an execution object with the statements of its grounded closure is handed to the real '
-               'ExecuteLogicaProgram with a simulated sql_runner; the fault-free run plus an engine error at EVERY call position. '
-               'Layer B: generated programs with @Ground intermediates and/or recursion of depth 21..41 (iterative plans), a random '
+               'ExecuteLogicaProgram with a simulated sql_runner; the fault-free run plus an engine error at EVERY call position; when the iteration has a stop signal, the engine raises it at EVERY call position (sometimes with a later failure on top) and the request is then repeated, with the file removed, on fresh or on the very same execution objects; a stale signal file at the start likewise. '
+               'Layer B: generated programs with @Ground intermediates and/or recursion of depth 21..41 (iterative plans, a quarter of them with a functor copy over the recursion), a random '
                'non-empty subset of requested predicates (incl. grounded intermediates and cover members), in-memory or file database, '
                'optionally one faulted run (abort/interrupt/disk full/locked) before the checked run; executed by the real '
                'ExecuteLogicaProgram + SqlRunner on SQLite; reads/creates per statement from the SQLite authorizer; every requested '
